@@ -277,9 +277,64 @@ class _CleanQ:
               f"LimitsAtShutdown, NotRemovedEarly, NotCompressedEarly, OriginalUntilFinished, CurrentSafe and the liveness property ShutdownReturns "
               f"hold; the variants 'a Die overrides queued Acts' and 'shutdown does not join' violate LimitsAtShutdown, "
               f"'consecutive Acts coalesced' does not (sanity of the invariant)")
+        # the same with failing effects inside the cleanup thread (FlwCleanQF.tla)
+        fstates = 0
+        self.KMF = [(k, m, d) for d in (False, True) for (k, m) in [(1, 1), (0, 1), (1, 2), (1, 0)]]
+        for (k, m, d) in self.KMF:
+            cfg = f"MCFlwCleanQF_{t}_{k}{m}{'d' if d else ''}.cfg"
+            r = C.run_tlc("MCFlwCleanQF.tla", os.path.join(C.SPEC, cfg), os.path.join(wd, "mcqf-" + cfg), workers=2, timeout=900)
+            if r["violated"] or r["deadlock"]:
+                raise C.ToolError(f"FlwCleanQF/{cfg} violates {r['violated']}: the model or the formalisation is wrong")
+            mc_stats.append({"module": "FlwCleanQF", "cfg": cfg, "states": r["states"], "transitions": r["transitions"],
+                             "depth": r["depth"], "wall_s": r["wall_s"]})
+            states += r["states"]
+            transitions += r["transitions"]
+            fstates += r["states"]
+        C.log(f"[C07] TLC FlwCleanQF.tla (the same with up to {2 if tier == 'quick' else 3} failing effects inside the cleanup thread, "
+              f"{len(self.KMF)} configurations): {fstates} distinct states; CleanupResumes (the limits hold exactly again as soon as one run "
+              f"that listed after the last rotation completes), OnlyFinishedReplace, NotRemovedEarly, NotCompressedEarly, CurrentSafe "
+              f"and the liveness property hold")
         scens = []
         rng = random.Random(seed * 31 + 7)
         self.nbeh = 0
+        self.nf = 0
+        for (k, m, d) in self.KMF:
+            cfg = f"MCFlwCleanQF_gen_{k}{m}{'d' if d else ''}.cfg"
+            r = C.run_tlc("MCFlwCleanQF.tla", os.path.join(C.SPEC, cfg), os.path.join(wd, "genqf-" + cfg), workers=1, timeout=600)
+            reps = [x for x in C.replay_lines(r) if any(st["op"] == "CFail" for st in x["steps"])]
+            states += r["states"]
+            transitions += r["transitions"]
+            if tier == "quick" and len(reps) > 40:
+                rng.shuffle(reps)
+                reps = reps[:40]
+            for j, rp in enumerate(reps):
+                steps = [{"op": "HoldCleaner"}, {"op": "Start", "append": False}]
+                for st in rp["steps"]:
+                    op = st["op"]
+                    if op == "Rotate":
+                        steps += [{"op": "Log", "len": rng.choice([9, 12, 40])}, {"op": "Trigger", "q": "Rotate"}]
+                    elif op == "CRecv":
+                        steps.append({"op": "CGo", "q": "CRecv", "exit": st["m"] == "Die"})
+                    elif op in ("CList", "CStep"):
+                        steps.append({"op": "CGo", "q": op})
+                    elif op == "CFail":
+                        # the very next file-system effect - the one the held thread is parked in front of - fails
+                        steps += [{"op": "Fault", "name": "*", "from": 1, "burst": 1, "kind": "other"}, {"op": "CGo", "q": "CFail"}]
+                    elif op == "Shutdown":
+                        steps.append({"op": "ShutdownBegin"})
+                    elif op == "Join":
+                        steps.append({"op": "ShutdownEnd"})
+                steps.append({"op": "Stop", "shutdown": False, "q": "cleanfail"})
+                c = {"naming": "NumD" if d else "Num", "rot": True, "size": 1000000, "mode": ["direct", "buf"][j % 2],
+                     "cap": 64, "bg": True, "crlf": False}
+                if k or not m:
+                    c["k"] = k
+                if m:
+                    c["m"] = m
+                # (MonC07 judges limits at quiescence; after a cleanup that failed last they need not hold)
+                scens.append({"sc": sc0 + len(scens), "cfg": c, "t0": 1000, "steps": steps, "origin": "tlc:FlwCleanQF",
+                              "obs": "sync", "cq": {"k": k, "m": m, "d": d}, "tag": {"cleanfail": True}})
+                self.nf += 1
         for (k, m, d) in self.KM:
             reps = []
             for g in (["gen"] if tier == "quick" else ["gen", "gent"]) + (["gent"] if tier == "quick" and (k, m) == (1, 1) else []):
@@ -329,9 +384,10 @@ class _CleanQ:
             for line in open(tf):
                 if '"ev":"Begin"' in line:
                     cur = None
-                    if '"origin":"tlc:FlwCleanQ"' in line:
+                    if '"origin":"tlc:FlwCleanQ"' in line or '"origin":"tlc:FlwCleanQF"' in line:
                         e = json.loads(line)
-                        cur = (e["cfg"].get("k", 0), e["cfg"].get("m", 0), e["cfg"].get("naming") == "NumD")
+                        cur = (e["cfg"].get("k", 0), e["cfg"].get("m", 0), e["cfg"].get("naming") == "NumD",
+                               e["origin"] == "tlc:FlwCleanQF")
                 if cur is not None:
                     per.setdefault(cur, []).append(line)
         drifts = []
@@ -340,10 +396,11 @@ class _CleanQ:
             lines = per[km]
             out = []
             for rnd in range(4):
-                tf = os.path.join(wd, f"cq-{km[0]}{km[1]}{int(km[2])}-{rnd}.ndjson")
+                mod = "TraceFlwCleanQF" if km[3] else "TraceFlwCleanQ"
+                tf = os.path.join(wd, f"cq-{km[0]}{km[1]}{int(km[2])}{int(km[3])}-{rnd}.ndjson")
                 open(tf, "w").writelines(lines)
-                r = C.run_tlc("TraceFlwCleanQ.tla", os.path.join(C.SPEC, "TraceFlwCleanQ.cfg"),
-                              os.path.join(wd, f"cq-meta-{km[0]}{km[1]}{int(km[2])}-{rnd}"), workers=1, timeout=900,
+                r = C.run_tlc(mod + ".tla", os.path.join(C.SPEC, mod + ".cfg"),
+                              os.path.join(wd, f"cq-meta-{km[0]}{km[1]}{int(km[2])}{int(km[3])}-{rnd}"), workers=1, timeout=900,
                               env={"TRACE": tf, "K": str(km[0]), "M": str(km[1]), "DIRECT": "1" if km[2] else "0"}, xmx="2g")
                 consumed = 0
                 for tag, rest in r["printed"]:
@@ -367,7 +424,8 @@ class _CleanQ:
             for d in ex.map(one, list(per)):
                 drifts += d
         nev = sum(len(v) for v in per.values())
-        C.log(f"[C07] FlwCleanQ.tla on the code: {self.n} behaviours ({self.nbeh} generated) stepped through the real cleanup thread "
+        C.log(f"[C07] FlwCleanQ.tla / FlwCleanQF.tla on the code: {self.n} behaviours ({self.nf} of them with a failing effect inside the "
+              f"cleanup thread) stepped through the real cleanup thread "
               f"(held in front of every recv, at the start of every run and in front of every file-system effect), {nev} events; "
               f"conform mode (TraceFlwCleanQ.tla: every step is the specification's action, equal sets of plain / compressed files, "
               f"the thread parks where the specification predicts, limits when shutdown() has returned): "
